@@ -264,6 +264,83 @@ def walk(ctx, phase):
         if phase == "after_import":
             ctx.count("opcode_values_checked")
 
+    def judge_len(tag, v, thunk, wit):
+        want = O.group_length(v)
+        try:
+            cdb = thunk()
+            got = len(cdb)
+            if want is None:
+                ctx.fail("C14:cdblen.%s.accepted.group%d" % (tag, v >> 5), "opcode %02Xh (group %d: no fixed length) accepted with a %d-byte CDB (%s)" % (v, v >> 5, got, tag), wit)
+            elif got != want:
+                ctx.fail("C14:cdblen.%s.group%d" % (tag, v >> 5), "opcode %02Xh: %d-byte CDB, group prescribes %d (%s)" % (v, got, want, tag), wit)
+        except Exception as e:  # noqa: BLE001
+            if want is not None:
+                ctx.fail("C14:cdblen.%s.refused.group%d" % (tag, v >> 5), "opcode %02Xh refused (%s), group prescribes %d bytes (%s)" % (v, type(e).__name__, want, tag), wit, exc=e)
+            elif type(e).__name__ != "OpcodeException":
+                ctx.fail("C14:cdblen.%s.wrong_error.group%d" % (tag, v >> 5), "opcode %02Xh refused with %s, not OpcodeException (%s)" % (v, type(e).__name__, tag), wit, exc=e)
+
+    # the length belongs to the value an OpCode object has *now*: real OpCode objects whose value is set again (public setter),
+    # and build_cdb(opcode=...) with another code than the one the command object was created with
+    from pyscsi.pyscsi.scsi_cdb_testunitready import TestUnitReady
+    from pyscsi.pyscsi.scsi_opcode import OpCode
+
+    for v1 in (0x00, 0x12, 0x28, 0x5E, 0x60, 0x7F, 0x88, 0xA8, 0xC0, 0xFF):
+        for v2 in range(256):
+            oc = OpCode("X", v1, {})
+            try:
+                SCSICommand.init_cdb(oc)
+            except Exception:  # noqa: BLE001
+                pass
+            oc.value = v2
+            ctx.case("len-reused:%s:%02x:%02x" % (phase, v1, v2), True)
+            judge_len("opcode_object_reused", v2, lambda: SCSICommand.init_cdb(oc), {"opcode": v2, "earlier_value_of_the_object": v1})
+            if O.group_length(v1) is not None:
+                cmd = TestUnitReady(OpCode("TEST", v1, {}))
+                ctx.case("len-build:%s:%02x:%02x" % (phase, v1, v2), True)
+                judge_len("first_build_cdb", v2, lambda: cmd.build_cdb(opcode=v2), {"opcode": v2, "command_created_with": v1})
+                judge_len("second_build_cdb", v2, lambda: cmd.build_cdb(opcode=v2), {"opcode": v2, "command_created_with": v1})
+            if phase == "after_import":
+                ctx.count("opcode_object_reuse_checks")
+
+    # whatever a table hands out under a standard name (also through plain attribute access, for names it does not list)
+    # carries the T10 value of that name
+    names = dict(O.CONTAINERS)
+    names.update(O.T10)
+    for setname in O.SETS:
+        enum = getattr(E, setname)
+        for name, ref in names.items():
+            try:
+                oc = getattr(enum, name)
+            except AttributeError:
+                continue
+            except Exception as e:  # noqa: BLE001
+                ctx.fail("C14:lookup_raises.%s" % type(e).__name__, "%s.%s raised %s" % (setname, name, type(e).__name__), {"table": setname, "name": name}, exc=e)
+                continue
+            ctx.count("attribute_lookups_answered")
+            val = getattr(oc, "value", oc)
+            if val != ref:
+                ctx.fail("C14:opcode.%s.%s" % (setname, name) if name in enum.keys else "C14:opcode_by_attribute.%s.%s" % (setname, name),
+                         "%s.%s answers %r, T10 assigns %02Xh to that name%s" % (setname, name, val, ref, "" if name in enum.keys else " (the table does not list the name)"),
+                         {"table": setname, "name": name, "value": val if isinstance(val, int) else repr(val), "reference": ref})
+            elif isinstance(val, int) and O.group_length(val) is not None:
+                try:
+                    if len(SCSICommand.init_cdb(oc)) != O.group_length(val):
+                        ctx.fail("C14:cdblen.by_name.%s" % name, "%s.%s: CDB length %d" % (setname, name, len(SCSICommand.init_cdb(oc))), {"table": setname, "name": name})
+                except Exception as e:  # noqa: BLE001
+                    ctx.fail("C14:cdblen.by_name.%s" % name, "%s.%s: init_cdb raised %s" % (setname, name, type(e).__name__), {"table": setname, "name": name}, exc=e)
+        all_sa = dict(O.GENERIC_SA)
+        for key in enum.keys:
+            sa = getattr(enum, key).serviceaction
+            refs = O.SA.get(key) if key in O.SA else (all_sa if key not in ("MAINTENANCE_IN", "MAINTENANCE_OUT") else all_sa)
+            for sk, sref in refs.items():
+                try:
+                    val = getattr(sa, sk)
+                except AttributeError:
+                    continue
+                if sk not in sa.keys and val != sref:
+                    ctx.fail("C14:sa_by_attribute.%s.%s.%s" % (setname, key, sk), "%s.%s.serviceaction.%s answers %r although not listed; T10 assigns %02Xh" % (setname, key, sk, val, sref),
+                             {"table": setname, "name": key, "sa": sk})
+
     # names: OpCode.name vs key (observation only)
     for setname in O.SETS:
         enum = getattr(E, setname)
